@@ -197,6 +197,9 @@ def check(run):
         if any(l.startswith("pa ") for l in lines) or len(meta["entries"]) > 2:
             npool += 1
     stats = asmprops.process(run, progs, evaluator, metas)
+    # macro half: the directives as lowered by the macro, with run-time values through rustc and with literals folded by the plugin
+    import c17x
+    stats["macro_directives"] = c17x.sweep(run, run.tier == "thorough")
     run.coverage["evaluations"] = len(progs)
     run.coverage["distinct_nontrivial"] = len(nontrivial) + npool
     run.coverage["traces_validated_against_impl"] = stats["requests"]
